@@ -27,6 +27,8 @@ CONSTANTS
   Def,       \* [Formulas \cup Ranges \cup Aliases -> record]  see Prec/Apply
   Init0,     \* [Inputs -> value]   the workbook as written
   Pool,      \* values set_value may write
+  Settable,  \* inputs set_value is applied to (a subset of Inputs)
+  Lists,     \* address lists evaluate() may be called with (sequences of nodes)
   Src        \* "NoData": workbook without stored results
              \* "Stored": xlsx with stored formula results
              \* "Loaded": model read back by from_file
@@ -114,14 +116,7 @@ Needed(x, c) == IF c[x] # NoneV THEN {}
 
 Fill(c, roots) == FillLevels(c, UNION {Needed(r, c) : r \in roots}, 1)
 
-(* cells created by _make_cells for the not yet built nodes B *)
-NewCache(B) ==
-  [x \in Nodes |->
-     IF x \notin B THEN cache[x]
-     ELSE IF x \in Inputs THEN inp[x]
-     ELSE IF x \in Formulas /\ Src = "Stored" /\ ~changed THEN Stored(x)
-     ELSE NoneV]
-
+(* edges added by _process_gen_graph for the newly built nodes B *)
 NewEdges(B) == {<<p, d>> \in Nodes \X B : p \in Prec(d)}
 
 (* ---- _reset: least set closed under "cached successor" ---- *)
@@ -153,15 +148,44 @@ Init ==
           /\ cache = [x \in Nodes |-> NoneV]
           /\ edges = {}
 
-Evaluate(n) ==
-  LET B  == AncOf(n) \ built
-      c0 == NewCache(B)
+(* the effect of one evaluate(address) on <<built, cache, edges>> *)
+EvalStep(st, n) ==
+  LET B  == AncOf(n) \ st.built
+      c0 == [x \in Nodes |->
+               IF x \notin B THEN st.cache[x]
+               ELSE IF x \in Inputs THEN inp[x]
+               ELSE IF x \in Formulas /\ Src = "Stored" /\ ~changed THEN Stored(x)
+               ELSE NoneV]
       c1 == Fill(c0, {n} \cup (B \cap (Ranges \cup Aliases)))
-  IN  /\ built' = built \cup B
-      /\ edges' = edges \cup NewEdges(B)
-      /\ cache' = c1
-      /\ ret' = c1[n]
+  IN  [built |-> st.built \cup B, cache |-> c1, edges |-> st.edges \cup NewEdges(B)]
+
+Evaluate(n) ==
+  LET st == EvalStep([built |-> built, cache |-> cache, edges |-> edges], n)
+  IN  /\ built' = st.built
+      /\ edges' = st.edges
+      /\ cache' = st.cache
+      /\ ret' = st.cache[n]
       /\ act' = [op |-> "evaluate", n |-> n]
+      /\ UNCHANGED <<inp, changed>>
+
+(* evaluate([a, b, ..]) / a tuple / a generator of addresses: the addresses *)
+(* are evaluated one after the other, the result has the same shape         *)
+RECURSIVE EvalSeq(_, _)
+EvalSeq(st, seq) == IF seq = <<>> THEN st ELSE EvalSeq(EvalStep(st, Head(seq)), Tail(seq))
+
+RECURSIVE RetSeq(_, _)
+RetSeq(st, seq) == IF seq = <<>> THEN <<>>
+                   ELSE LET s1 == EvalStep(st, Head(seq))
+                        IN  <<s1.cache[Head(seq)]>> \o RetSeq(s1, Tail(seq))
+
+EvaluateList(seq) ==
+  LET st0 == [built |-> built, cache |-> cache, edges |-> edges]
+      st  == EvalSeq(st0, seq)
+  IN  /\ built' = st.built
+      /\ edges' = st.edges
+      /\ cache' = st.cache
+      /\ ret' = <<"L", RetSeq(st0, seq)>>
+      /\ act' = [op |-> "evaluate_list", ns |-> seq]
       /\ UNCHANGED <<inp, changed>>
 
 SetValue(a, v) ==
@@ -178,7 +202,8 @@ SetValue(a, v) ==
   /\ UNCHANGED <<built, edges>>
 
 Next == \/ \E n \in Nodes : Evaluate(n)
-        \/ \E a \in Inputs, v \in Pool : SetValue(a, v)
+        \/ \E seq \in Lists : EvaluateList(seq)
+        \/ \E a \in Settable, v \in Pool : SetValue(a, v)
 
 Spec == Init /\ [][Next]_vars
 
@@ -188,7 +213,9 @@ Coherent == LET f == FreshAll(inp) IN
   \A n \in built \ Inputs : cache[n] # NoneV => cache[n] = f[n]
 InputsMirror == /\ \A a \in built \cap Inputs : cache[a] = inp[a]
                 /\ \A a \in Inputs \ built : inp[a] = Init0[a]
-RetOK == act.op = "evaluate" => ret = Fresh(act.n, inp)
+RetOK == /\ act.op = "evaluate" => ret = Fresh(act.n, inp)
+         /\ act.op = "evaluate_list" =>
+              ret[2] = [i \in 1..Len(act.ns) |-> Fresh(act.ns[i], inp)]
 
 (* facts about the implementation's own structures *)
 Closure == \A n \in built \ Inputs : cache[n] # NoneV =>
